@@ -95,11 +95,15 @@ inductive Op where
   | resplit (t c mem dq : Nat)
   | finChan (k id : Nat)
   | finClient (k : Nat)
+  | guard (k : Nat)
+  | deliverArmed (k id : Nat) (now : Int)
 deriving DecidableEq, Repr
 
 def Op.atomic : Op → Bool
   | .finChan .. => false
   | .finClient .. => false
+  | .guard .. => false
+  | .deliverArmed .. => false
   | .createChanRaw .. => false
   | .refreshPump .. => false
   | _ => true
@@ -302,6 +306,8 @@ def step (s : State) : Op → State × Out
   | .fin k id => connStep s k (.fin k id)
   | .finChan k id => connStep s k (.finChan k id)
   | .finClient k => connStep s k (.finClient k)
+  | .guard k => connStep s k (.guard k)
+  | .deliverArmed k id now => connStep s k (.deliverArmed k id now)
   | .req k id delay now => connStep s k (.req k id (clampReq s.conf delay) now)
   | .touch k id now => connStep s k (.touch k id now)
   | .scanInFlight t c time => chanStep s t c (.scanInFlight time)
